@@ -999,6 +999,7 @@ private:
             }
             else
             {
+                write_tag(raw_tag); // the reference stands for the byte string only, the tag belongs to this occurrence
                 write_tag(25);
                 write_uint64_value((*it).second);
             }
